@@ -144,7 +144,9 @@ impl Game {
         }
         match action {
             Action::Raise(raise) => {
-                self.may_raise()
+                !self.must_deal()
+                    && !self.must_post()
+                    && self.may_raise()
                     && raise.clone() >= self.to_raise()
                     && raise.clone() <= self.to_shove() - 1
             }
